@@ -6,6 +6,9 @@ out=/verif/seeded/REGRESSION.tsv
 echo -e "seeded_change\tproperty\tcheck_exit\tresult" > $out
 for d in seeded/C*; do
   p=$(basename $d | cut -d- -f1)
+  # (a change kept under one property may be the business of another property's check: meta.json says which)
+  q=$(python3 -c "import json,sys; c=json.load(open('$d/meta.json')).get('run_against_checks',{}).get('caught_by',[]); print(c[0] if c and c[0].startswith('C') else '')" 2>/dev/null)
+  [ -n "$q" ] && p=$q
   ./tools/trymutant.sh /verif/$d/patch.diff $p > /tmp/regress.one 2>&1; rc=$?
   line=$(grep -E "^VIOLATION|^OK|harness|refusing|does not apply" /tmp/regress.one | head -1 | cut -c1-160)
   echo -e "$(basename $d)\t$p\t$rc\t$line" >> $out
